@@ -68,6 +68,10 @@ def scenario(draw) -> Dict[str, Any]:
             # the withdrawn service was registered only just before: probing ends 525 ms after the call, and its three
             # announcements (225 ms apart, not awaited by the application) are still going on when it is unregistered
             services[k]['late'] = True
+            ta = draw(st.sampled_from([None, None, 3000, 120]))
+            if ta is not None:
+                # ... through the legacy `ttl=` argument of (async_)register_service, which sets both TTLs of the description
+                services[k]['ttl_arg'] = services[k]['host_ttl'] = services[k]['other_ttl'] = ta
             pre_updates = [u for u in pre_updates if u['svc'] != k]
             items.append((-draw(st.sampled_from([530, 560, 700, 760, 900, 990])), 0, {'kind': 'register', 'svc': k}))
             if how == 'unregister' and draw(st.booleans()):
@@ -80,7 +84,16 @@ def scenario(draw) -> Dict[str, Any]:
             # the application unregisters one service without waiting for the goodbyes and closes the instance right away or
             # shortly after: the service still has to be withdrawn three times before the sockets close
             items[-1][2]['await'] = False
-            items.append((draw(st.sampled_from([0, 0, 1, 100, 124, 126, 200, 249, 251, 400])), 2, {'kind': 'close'}))
+            c_off = draw(st.sampled_from([0, 0, 1, 100, 124, 126, 200, 249, 251, 400]))
+            items.append((c_off, 2, {'kind': 'close'}))
+            if n > 1 and draw(st.booleans()):
+                # ... while another service is still probing: its registration (350 ms) completes while the close waits for the
+                # goodbyes of the first one - it is announced, so it has to be withdrawn before the sockets close as well
+                j = (k + 1) % n
+                if not services[j].get('late'):
+                    services[j]['late'] = True
+                    pre_updates = [u for u in pre_updates if u['svc'] != j]
+                    items.append((draw(st.sampled_from([-340, -300, -250, -200, -150, -101])), 0, {'kind': 'register', 'svc': j}))
         if how == 'unregister2' and n > 1:
             items.append((draw(st.sampled_from([0, 1, 100, 125, 300])), 2, {'kind': 'unregister', 'svc': (k + 1) % n, 'await': True}))
     n_q = draw(st.integers(1, 5))
@@ -156,6 +169,10 @@ def check(case: Dict[str, Any]) -> Dict[str, Any]:
     for ev in run.api_events:
         if ev['kind'] == 'registered':
             live[ev['svc']] = True
+            if not ev.get('re'):
+                # a registration that completed later may share the host name of a service withdrawn before: the host's address
+                # records are then records of a registered service again
+                reborn.append((ev['g'], {norm(a) for a in services[ev['svc']].addresses()}))
             if ev.get('re'):
                 services[ev['svc']] = rp.Svc(ev['desc'])
                 reborn.append((ev['g'], {norm(i) for i in services[ev['svc']].records_with_ttl()}))
@@ -169,7 +186,8 @@ def check(case: Dict[str, Any]) -> Dict[str, Any]:
                 w |= {norm(a) for a in s.addresses()}
                 if s.missing():
                     w.add(norm(s.nsec()))
-            withdrawals.append({'g': ev['g'], 't': ev['t_ms'], 'W': w, 'kind': 'unregister', 'svc': k, 'shared': shared})
+            withdrawals.append({'g': ev['g'], 't': ev['t_ms'], 'W': w, 'kind': 'unregister', 'svc': k, 'shared': shared,
+                                'anchor': norm(s.ptr())})
         elif ev['kind'] == 'close':
             w = set()
             for j, s in enumerate(services):
@@ -189,7 +207,9 @@ def check(case: Dict[str, Any]) -> Dict[str, Any]:
             zero = {norm(i) for i, ttl, _ in s['an'] + s['ar'] if ttl == 0}
             if zero and zero & wd['W'] and zero <= wd['W'] | set():
                 byes.append((s, zero))
-            elif zero and zero & wd['W'] and wd['kind'] == 'unregister':
+            elif zero and zero & wd['W'] and wd['kind'] == 'unregister' and wd['anchor'] in zero:
+                # (a goodbye of another service of the same host may repeat the host's address records: it is not one of this
+                # service's goodbyes unless it names this service's pointer)
                 byes.append((s, zero))
         det = {'withdrawal': wd['kind'], 't_u': rel(wd['t']), 'expected_records': sorted(map(str, wd['W'])),
                'goodbyes': [(rel(s['t_ms']), sorted(map(str, z))) for s, z in byes]}
@@ -223,6 +243,25 @@ def check(case: Dict[str, Any]) -> Dict[str, Any]:
             if q['g'] < wd['g'] and q['t_ms'] + 1250 > wd['t'] and not q['legacy'] and any(norm(i) in wd['W'] for i in q['exp'][0]):
                 if q['tc'] or q['t_ms'] + 20 <= wd['t'] + 1:
                     queued_at_withdrawal = True
+    if any(ev['kind'] == 'close' for ev in run.api_events):
+        # the instance was closed: whatever it announced - also a registration that completed while the close was under way - has
+        # been withdrawn; the last multicast about each service's PTR/SRV/TXT carries TTL 0
+        last_word: Dict[Tuple, Tuple[int, float]] = {}
+        for s in sends:
+            if s['mc'] and s.get('response'):
+                for i, ttl, _ in s['an'] + s['ar']:
+                    last_word[norm(i)] = (ttl, s['t_ms'])
+        for j, sv in enumerate(services):
+            for i in (sv.ptr(), sv.srv(), sv.txt()):
+                lw = last_word.get(norm(i))
+                if lw is not None and lw[0] > 0:
+                    raise Violation('the instance was closed, but the last thing it multicast about a record of one of its services '
+                                    'carried a non-zero TTL (announced, never withdrawn)',
+                                    {'service': sv.name, 'record': str(norm(i)), 'ttl': lw[0], 't': rel(lw[1]),
+                                     'registered_during_close': bool(run.sc['services'][j].get('late'))}, tag='close-last-word')
+    if any(ev['kind'] == 'close' for ev in run.api_events) and sum(1 for d in run.sc['services'] if d.get('late')) and \
+            any(ev.get('kind') == 'unregister' for ev in case['events']):
+        classes.append('registration-in-flight-at-unregister-then-close')
     if run.peer_listener is not None:
         # user-visible effect: after the goodbye sequence has completed the peer must not (re-)add a withdrawn instance
         for wd in withdrawals:
@@ -247,7 +286,7 @@ def check(case: Dict[str, Any]) -> Dict[str, Any]:
     if any(ev['kind'] == 'registered' for ev in run.api_events) and any(w_['kind'] == 'unregister' and run.sc['services'][w_['svc']].get('late')
                                                                        for w_ in withdrawals):
         classes.append('withdrawn-while-still-announcing')
-    if reborn:
+    if any(ev['kind'] == 'registered' and ev.get('re') for ev in run.api_events):
         classes.append('registered-again-with-other-data-after-the-withdrawal')
     if any(ev.get('kind') == 'unregister' and ev.get('fresh_object') for ev in case['events']):
         classes.append('unregistered-with-a-rebuilt-serviceinfo')
